@@ -928,15 +928,29 @@ def replay(ctx, data):
         return 1 if [int(v) * OUT_SCALE for v in out] != mo else 0
     if op == "detect":
         fs, nc, ns = 30000, 384, 9000
-        x, rs = background(inp["seed"], nc, ns, fs)
+        x, _ = background(inp["seed"], nc, ns, fs)
+        rs = np.random.default_rng(4242)          # the injected noise is redrawn (the fault classes have wide margins)
+        fault = inp.get("fault")
+        expect = {}
+        if fault in ("dead", "combined"):
+            p = inp["position"] if fault == "dead" else inp["dead"]
+            x[p] = 0
+            expect[p] = 1
+        if fault in ("noisy", "combined"):
+            p = inp["position"] if fault == "noisy" else inp["noisy"]
+            x[p] += rs.standard_normal(ns) * 100e-6
+            expect[p] = 2
+        if fault in ("outside", "combined") and inp.get("top_block"):
+            k = inp["top_block"]
+            x[nc - k:] = rs.standard_normal((k, ns)) * 5e-6
+            expect.update({i: 3 for i in range(nc - k, nc)})
+        lab, f = V().detect_bad_channels(x, fs)
+        got = {int(i): int(lab[i]) for i in np.flatnonzero(lab)}
         print("fault:", {k: v for k, v in inp.items() if k not in ("expected", "got")})
-        print("expected labels:", inp.get("expected"), "\nlabels seen during the check:", inp.get("got"))
-        if inp.get("fault") == "dead":
-            x[inp["position"]] = 0
-            lab, f = V().detect_bad_channels(x, fs)
-            print("now:", {int(i): int(lab[i]) for i in np.flatnonzero(lab)},
-                  "xcor_hf at the channel:", float(f["xcor_hf"][inp["position"]]))
-            return 0 if {int(i): int(lab[i]) for i in np.flatnonzero(lab)} == {inp["position"]: 1} else 1
-        return 1
+        print("expected labels:", expect)
+        print("labels now     :", got, " (during the check:", inp.get("got"), ")")
+        for p in list(expect)[:3]:
+            print("channel %d: xcor_hf %.4f xcor_lf %.4f psd_hf %.4g" % (p, f["xcor_hf"][p], f["xcor_lf"][p], f["psd_hf"][p]))
+        return 0 if got == expect else 1
     print(json.dumps(inp, indent=1)[:3000])
     return 1
